@@ -43,8 +43,18 @@ def _two_master_family(case):
     skip = kw.pop("skipExportGlyphs", None)
     if skip is None:
         skip = (u0.get("lib") or {}).get("public.skipExportGlyphs")
-    fam = {"axes": [{"name": "Weight", "tag": "wght", "min": 0, "default": 0, "max": 8}],
-           "masters": [{"loc": {"Weight": 0}, "ufo": u0, "name": "M0"}, {"loc": {"Weight": 8}, "ufo": u1, "name": "M1"}],
+    masters = [{"loc": {"Weight": 0}, "ufo": u0, "name": "M0"}, {"loc": {"Weight": 8}, "ufo": u1, "name": "M1"}]
+    if case.get("otherFirst"):
+        # the NON-default master is listed first and carries other (or no) glyph categories: layout data that is not
+        # interpolated comes from the default source, wherever it is listed
+        lib1 = dict(u1.get("lib") or {})
+        if case.get("otherCats") is None:
+            lib1.pop("public.openTypeCategories", None)
+        else:
+            lib1["public.openTypeCategories"] = dict(case["otherCats"])
+        u1["lib"] = lib1
+        masters.reverse()
+    fam = {"axes": [{"name": "Weight", "tag": "wght", "min": 0, "default": 0, "max": 8}], "masters": masters,
            "lib": {"public.skipExportGlyphs": list(skip)} if skip else {}}
     return dsbuild.build_designspace(fam, case.get("lib", "ufoLib2")), kw
 
@@ -63,7 +73,7 @@ def compile_layout(case, flavor="tt", writer_objs=None, via="static"):
         kw["debugFeatureFile"] = dbg
         if via == "interp":
             fn = ufo2ft.compileInterpolatableTTFsFromDS if flavor == "tt" else ufo2ft.compileInterpolatableOTFsFromDS
-            otf = fn(ds, **kw).sources[0].font
+            otf = fn(ds, **kw).sources[1 if case.get("otherFirst") else 0].font
         else:
             fn = ufo2ft.compileVariableTTF if flavor == "tt" else ufo2ft.compileVariableCFF2
             otf = fn(ds, variableFeatures=(via == "vf"), **kw)
